@@ -116,14 +116,15 @@ def handle (op : String) (args : List String) (impl : String) : Option Verdict :
     let some ops := parseOps ops | return bad
     let exec : Delivery → Out := if kind = "evm" then evm 150 60 else sub
     let runs := runHist exec [] ops
-    let model := joinOr (runs.map fun r => showOut r.2) "/"
+    let model := joinOr (runs.map fun r => showOut r.2.2.2) "/"
     let outs := items impl "/"
+    let dl := fun (r : List Nat × List Nat × Option Nat × Out) => answers r.1 r.2.1 r.2.2.1
     let ok := outs.length == runs.length &&
       (runs.zip outs).all fun (r, o) =>
         match implSessions o with
-        | some ss => decide (P03 (hasErr r.1) (wanted r.1) ss)
+        | some ss => decide (P03 (hasErr (dl r)) (wanted (dl r)) ss)
         | none => false
-    return ⟨model, ok, s!"hist:{kind}:deliveries={min runs.length 4}:redelivered={runs.any fun r => r.1.any (·.2 = .exec)}"⟩
+    return ⟨model, ok, s!"hist:{kind}:deliveries={min runs.length 4}:redelivered={runs.any fun r => (dl r).any (·.2 = .exec)}"⟩
   | "histbtc", [n, ops] => some <| Id.run do
     let some n := n.toNat? | return bad
     let some ops := parseBOps ops | return bad
